@@ -827,6 +827,33 @@ func misbehave(e *Env) {
 			errBefore++
 		}
 	}
+	// meanwhile the application goes on registering and removing handlers of its
+	// own (another event name, both sets): a handler that is stuck or has
+	// panicked must not stand in the way of that either, nor may those calls
+	// hold up delivery
+	regDone, regCalls := true, 0
+	if g.Pct(50) {
+		regDone = false
+		e.S.Count("probe.handlers-registered-and-removed-while-others-misbehave")
+		e.S.Spawn("registrar", func() {
+			for k := 0; k < 6; k++ {
+				simrt.Sleep(time.Duration(g.S.Choose(4)) * time.Millisecond)
+				var rm client.Remover
+				if g.S.Choose(2) == 0 {
+					rm = s.c.HandleBG("QUX", client.HandlerFunc(func(*client.Conn, *client.Line) {}))
+				} else {
+					rm = s.c.HandleFunc("QUX", func(*client.Conn, *client.Line) {})
+				}
+				regCalls++
+				if g.S.Choose(2) == 0 {
+					simrt.Sleep(time.Duration(g.S.Choose(3)) * time.Millisecond)
+					rm.Remove()
+					regCalls++
+				}
+			}
+			regDone = true
+		})
+	}
 	ended := false
 	closeReturned := false
 	for i, ev := range evs {
@@ -902,6 +929,11 @@ func misbehave(e *Env) {
 		return
 	}
 	simrt.Settle(time.Minute)
+	e.Check()
+	if !regDone {
+		e.Violation("delivery-stopped", "a task that registers and removes handlers for another event is stuck after %d calls, in a run with panicking/blocking handlers\n%s", regCalls, e.S.TaskDump())
+		return
+	}
 	for _, h := range hs {
 		for _, ev := range evs {
 			if ev.verb != h.verb {
